@@ -1,6 +1,9 @@
 package graphql
 
 import (
+	"strings"
+	"strconv"
+	"math"
 	"bytes"
 	"context"
 	"encoding/json"
@@ -94,7 +97,45 @@ func Harness_C08_misc() {
 		zzsym.Assert(d.Decode(&x) == nil, "the output is valid JSON")
 		return x
 	}
-	switch zzsym.Choice("scalar", 9) {
+	switch zzsym.Choice("scalar", 11) {
+	case 9:
+		// Any holding a float64 of any bit pattern: a valid number that decodes to it, or a reported failure - never an invalid token
+		f := zzsym.Float64("f")
+		panicked := func() (p bool) {
+			defer func() {
+				if recover() != nil {
+					p = true
+				}
+			}()
+			MarshalAny(f).MarshalGQL(&buf)
+			return false
+		}()
+		finite := !math.IsInf(f, 0) && !math.IsNaN(f)
+		zzsym.Assert(panicked == !finite, "Any reports a non-finite float as a failure and emits every finite one")
+		if !panicked {
+			v, ok := zzsym.FloatToken(strings.TrimSpace(buf.String()))
+			zzsym.Assert(ok && v == f, "Any emits a float64 as a JSON number that decodes to it")
+		} else {
+			zzsym.Assert(buf.Len() == 0 || json.Valid(buf.Bytes()), "no invalid token is emitted for a non-finite float inside Any")
+		}
+	case 10:
+		// Any holding the other leaf kinds
+		for _, x := range []any{nil, "q\"<", true, false, int(-7), int64(1) << 40, json.Number("12")} {
+			buf.Reset()
+			MarshalAny(x).MarshalGQL(&buf)
+			var back any
+			d := json.NewDecoder(bytes.NewReader(buf.Bytes()))
+			d.UseNumber()
+			zzsym.Assert(d.Decode(&back) == nil, "Any emits valid JSON for every leaf kind")
+			want := x
+			switch n := x.(type) {
+			case int:
+				want = json.Number(strconv.Itoa(n))
+			case int64:
+				want = json.Number(strconv.FormatInt(n, 10))
+			}
+			zzsym.Assert(back == want, "Any round-trips its leaf value")
+		}
 	case 0:
 		b := zzsym.Bool("b")
 		MarshalBoolean(b).MarshalGQL(&buf)
